@@ -25,6 +25,8 @@ INVARIANTS %s
 """
 PARAM = {"hugeParam": "sizeThreshold", "rangeValCopy": "sizeThreshold", "rangeExprCopy": "sizeThreshold", "tooManyResultsChecker": "maxResults",
          "nestingReduce": "bodyWidth", "ifElseChain": "minThreshold", "commentedOutCode": "minLength"}
+TAGOF = {"hugeParam": "performance", "rangeValCopy": "performance", "rangeExprCopy": "performance", "tooManyResultsChecker": "style",
+         "nestingReduce": "style", "ifElseChain": "style", "commentedOutCode": "diagnostic"}
 BOOLS = [("captLocal", "paramsOnly"), ("elseif", "skipBalanced"), ("underef", "skipRecvDeref"), ("unnamedResult", "checkExported"), ("truncateCmp", "skipArchDependent")]
 LINE = re.compile(r"^(.*?\.go):(\d+):(\d+): (\w+): (.*)$")
 
@@ -112,6 +114,16 @@ def run(ctx):
                 if got != want:
                     ctx.fail("ParamPath %s %s" % (fe_kind(fe), c), "%s with -@%s.%s=%d reports measures %s, the integrator path (Override) reports %s"
                              % (fe, c, PARAM[c], n, [m for m in ms if got[m]], [m for m in ms if want[m]]), {"frontend": fe, "checker": c, "n": n})
+                # the value must be used however the checker was selected: by one of its tags, or by enable-all
+                if n == pick[len(pick) // 2]:
+                    for sel in ("-enable=#" + TAGOF[c], "-enableAll"):
+                        rep2 = run_bin(fe, b, work, c, "-@%s.%s=%d" % (c, PARAM[c], n), "./" + c, select=sel)
+                        runs += 1
+                        got2 = {m: (("m%02d.go" % m) in rep2) for m in ms}
+                        if got2 != want:
+                            ctx.fail("ParamPath %s %s selected-by-%s" % (fe_kind(fe), c, "tag" if "#" in sel else "all"),
+                                     "%s %s -@%s.%s=%d reports measures %s, expected %s" % (fe, sel, c, PARAM[c], n, [m for m in ms if got2[m]], [m for m in ms if want[m]]),
+                                     {"frontend": fe, "checker": c, "n": n, "select": sel})
     for c, p in BOOLS:
         for fe, b in bins.items():
             res = {}
@@ -137,11 +149,12 @@ def fe_kind(fe):
     return "analysis" if "analysis" in fe else "cli"
 
 
-def run_bin(fe, binp, work, checker, flag, pkg, lines=False):
+def run_bin(fe, binp, work, checker, flag, pkg, lines=False, select=None):
+    sel = select or ("-enable=" + checker)
     if "analysis" in fe:
-        args = [binp, "-enable=" + checker, "-disable=", flag, pkg]
+        args = [binp, sel.replace("-enableAll", "-enable-all")] + ([] if "All" in sel else ["-disable="]) + [flag, pkg]
     else:
-        args = [binp, "check", "-enable=" + checker, flag, pkg]
+        args = [binp, "check", sel, flag, pkg]
     r = subprocess.run(args, cwd=work, capture_output=True, text=True, env=vlib.goenv(), timeout=600)
     if "panic:" in r.stderr:
         raise vlib.Infra("binary crashed: %s %s" % (args, r.stderr[-500:]))
